@@ -284,7 +284,9 @@ class NDNApp:
         self._prefix_register_semaphore = aio.Semaphore(1)
 
         async def starting_task():
-            for name, route, validator, need_raw_packet, need_sig_ptrs in self._autoreg_routes:
+            # The routes declared before this connection; one declared while these registrations are under way
+            # registers itself (see ``route``) and must not be registered a second time from here
+            for name, route, validator, need_raw_packet, need_sig_ptrs in routes_at_start:
                 await self.register(name, route, validator, need_raw_packet, need_sig_ptrs)
             if after_start:
                 try:
@@ -302,6 +304,7 @@ class NDNApp:
                 elif isinstance(after_start, (aio.Task, aio.Future)):
                     after_start.cancel()
             raise
+        routes_at_start = list(self._autoreg_routes)
         task = aio.create_task(starting_task())
         self.logger.debug('Connected to NFD node, start running...')
         try:
